@@ -423,6 +423,25 @@ def run_case(c):
         if not np.array_equal(A2, keep2):
             bad("caller_array_modified", "force constants handed in (%s) were rewritten by set_force_constants_zero_with_radius()" % layout,
                 handed_in="force_constants(%s)" % layout, fc_copy_avoidance=True, probe="P1", modified_by="cutoff", owns_data=True)
+    # P1b: a non-owning window of a larger buffer handed in (no copy avoidance is promised for it), in an ordinary object and in one with the
+    # deprecated frequency_scale_factor (where the object keeps its own record of the unscaled constants): in-place operations must not reach it
+    for fsf_ in (None, 1.07):
+        w2 = World(c["cell"], c["init"], c["seed"] + 5, fsf=fsf_)
+        for layout in ("full", "compact"):
+            m_ = np.array(w2.model() if layout == "full" else w2.model()[w2.p2s], dtype="double", order="C")
+            m_ += 1e-3 * np.random.default_rng(2).standard_normal(m_.shape)
+            stack_ = np.zeros((2,) + m_.shape)
+            stack_[1] = m_
+            view_ = stack_[1]
+            keep_ = view_.copy()
+            w2.ph.force_constants = view_
+            w2.ph.symmetrize_force_constants(level=1, show_drift=False)
+            w2.ph.set_force_constants_zero_with_radius(3.0)
+            n_probe += 1
+            if not np.array_equal(view_, keep_):
+                bad("caller_array_modified", "a window of a larger buffer handed in as force constants (%s%s) was rewritten by the in-place operations" % (
+                    layout, ", object with frequency_scale_factor" if fsf_ else ""), handed_in="force_constants(%s)" % layout, fc_copy_avoidance=True, probe="P1b",
+                    modified_by="symmetrize", owns_data=False, frequency_scale_factor=bool(fsf_))
     # P2: handed-out force constants alias internal state
     ph.force_constants = np.array(w.model(), dtype="double", order="C")
     a0 = answers()
